@@ -52,12 +52,19 @@ def tool(name):
     return os.path.join(ENGINE, "target", "release", name)
 
 
-def run_engine(cmd, out_json, timeout=3600, cwd=None, extra_env=None):
-    """Run an engine that writes a vcore::report::Report to out_json."""
+def run_engine(cmd, out_json, timeout=3600, cwd=None, extra_env=None, crash_tag=None):
+    """Run an engine that writes a vcore::report::Report to out_json.
+    crash_tag: for memory-safety checks on the unsafe build, death by a signal IS the symptom being
+    looked for; it is then reported as a violation with this tag instead of a machinery error."""
     os.makedirs(OUT, exist_ok=True)
     if os.path.exists(out_json):
         os.remove(out_json)
     p = sh(cmd, cwd=cwd, timeout=timeout, check=False, extra_env=extra_env)
+    if p.returncode < 0 and crash_tag:
+        return {"engine": " ".join(cmd[:2]), "counts": {"evaluations": 1}, "observed": {}, "samples": [], "notes": [], "bounds": {}, "exhaustive": False,
+                "violations": [{"key": f"{crash_tag}/{os.path.basename(cmd[0])}", "tag": crash_tag, "case": " ".join(cmd)[:300],
+                                "detail": f"the process was killed by signal {-p.returncode} while running the default (unsafe) build: {(p.stdout or '')[-600:]}",
+                                "replay": {"kind": "command", "argv": cmd, "tag": crash_tag}}]}
     if p.returncode != 0 or not os.path.exists(out_json):
         raise MachineryError(f"engine failed ({p.returncode}): {' '.join(cmd)[:300]}\n{(p.stdout or '')[-3000:]}")
     with open(out_json) as f:
@@ -124,3 +131,50 @@ def merge_reports(reports):
         tot["exhaustive"] = tot["exhaustive"] and r.get("exhaustive", True)
         tot["steps"].append({"step": name, "engine": r.get("engine"), "counts": r.get("counts", {})})
     return tot
+
+
+VRT = os.path.join(ENGINE, "vrt")
+VRT_CFGS = {
+    # name: (release?, features)
+    "u-dev": (False, []),
+    "u-rel": (True, []),
+    "f-dev": (False, ["forbid_unsafe"]),
+    "f-rel": (True, ["forbid_unsafe"]),
+    "t-dev": (False, ["trace"]),
+}
+_gen_done = set()
+
+
+def gen_dir(tier):
+    return os.path.join(VRT, f"gen-{tier}")
+
+
+def ensure_gen(tier, seed):
+    """Regenerate the compiled sub-corpus from /repo's current tree (files only rewritten when changed)."""
+    if tier in _gen_done:
+        return
+    build_tools()
+    sh([tool("vgraph"), "gen", "--tier", tier, "--seed", str(seed), "--out", gen_dir(tier)], timeout=1800)
+    _gen_done.add(tier)
+
+
+def ensure_vrt(cfg, tier, seed):
+    ensure_gen(tier, seed)
+    key = f"vrt-{cfg}-{tier}"
+    rel, feats = VRT_CFGS[cfg]
+    tdir = os.path.join(VRT, "target", f"{tier}-{cfg}")
+    if key not in _built:
+        cmd = ["cargo", "build", "-p", "vrt", "--offline", "-q", "--target-dir", tdir]
+        if rel:
+            cmd.append("--release")
+        if feats:
+            cmd += ["--features", ",".join(feats)]
+        sh(cmd, cwd=VRT, timeout=3600, extra_env={"VRT_GEN_DIR": gen_dir(tier)})
+        _built.add(key)
+    return os.path.join(tdir, "release" if rel else "debug", "vrt")
+
+
+def run_vrt(cfg, tier, seed, cmd, prop, out_json, extra=None, wrapper=None, timeout=7200, extra_env=None, crash_tag=None):
+    exe = ensure_vrt(cfg, tier, seed)
+    argv = (wrapper or []) + [exe, cmd, "--prop", prop, "--tier", tier, "--seed", str(seed), "--corpus", os.path.join(gen_dir(tier), "corpus.json"), "--out", out_json] + (extra or [])
+    return run_engine(argv, out_json, timeout=timeout, extra_env=extra_env, crash_tag=crash_tag)
